@@ -45,6 +45,19 @@ def _px():
     return _PX
 
 
+_PXM = []
+
+
+def _pxm():
+    """the model level names (imported once, before the workers are forked)"""
+    if not _PXM:
+        from pharmpy.model import Model, NormalDistribution, Parameter, Parameters, RandomVariables
+        from pharmpy.modeling import remove_unused_parameters_and_rvs
+        _PXM.extend([Model, NormalDistribution, Parameter, Parameters, RandomVariables,
+                     remove_unused_parameters_and_rvs])
+    return _PXM
+
+
 def _exc(e):
     return f'{type(e).__name__}: {str(e)[:160]}'
 
@@ -369,6 +382,10 @@ CL_DD_SUP = ('direct_dependencies(s) contains the reaching definition of every s
              'reads (for an ODE system: every symbol of its rates, doses, inputs, lag times and bioavailabilities)')
 CL_DD_FRAME = 'direct_dependencies(s) lists only earlier statements defining something s reads, each once, in statement order'
 CL_DD_ERR = 'direct_dependencies raises no internal error'
+CL_RUP = ('remove_unused_parameters_and_rvs removes exactly the parameters and random variables that no statement reads '
+          '(an ODE system reads its rates, doses, inputs, lag times and bioavailabilities) and keeps the statements')
+CL_RUP_ERR = 'remove_unused_parameters_and_rvs raises no internal error'
+FID_RUP = 'src/pharmpy/modeling/common.py:remove_unused_parameters_and_rvs'
 CL_SUBS_FUNC = ('subs with an applied function (compartment amount A_X(t)) as key replaces it in every statement that '
                 'contains it and changes nothing else')
 CL_SUBS_EXPR = ('subs with a compound expression as key replaces the right hand sides equal to that expression and '
@@ -386,7 +403,10 @@ class _Fails:
         self.items = {}
 
     def add(self, method, clause, detail):
-        key = (_fid(method), clause)
+        self.add_fid(_fid(method), clause, detail)
+
+    def add_fid(self, fid, clause, detail):
+        key = (fid, clause)
         if key not in self.items:
             self.items[key] = f'{detail}   [program: {_show(self.prog)}]'
 
@@ -486,6 +506,32 @@ def _check_rsd(prog, objs, st, reach, vals0, F):
             for clause, detail in best:
                 F.add('remove_symbol_definitions', clause, detail)
     return count
+
+
+def _check_rup(prog, objs, st, inputs, F):
+    """a model around the statements: every input is a parameter, except t (the independent variable) and E, which is
+    a random variable with variance OM_E; plus a parameter UNUSED and a random variable EU (variance OM_U) that
+    nothing reads"""
+    Model, NormalDistribution, Parameter, Parameters, RandomVariables, remove_unused_parameters_and_rvs = _pxm()
+    pnames = [i for i in sorted(inputs, key=_ORDER.index) if i not in ('t', 'E')]
+    try:
+        pars = Parameters.create([Parameter.create(i, 1.0) for i in ['UNUSED'] + pnames + ['OM_E', 'OM_U']])
+        rvs = RandomVariables.create([NormalDistribution.create('EU', 'IIV', 0, 'OM_U'),
+                                      NormalDistribution.create('E', 'IIV', 0, 'OM_E')])
+        model = Model.create(name='m', parameters=pars, random_variables=rvs, statements=st)
+        res = remove_unused_parameters_and_rvs(model)
+        got_p, got_r = list(res.parameters.names), list(res.random_variables.names)
+        same = list(res.statements) == objs
+    except Exception as e:
+        F.add_fid(FID_RUP, CL_RUP_ERR, f'parameters {pnames}, random variable E: raised {_exc(e)}')
+        return
+    want_p = pnames + (['OM_E'] if 'E' in inputs else [])
+    want_r = ['E'] if 'E' in inputs else []
+    if got_p != want_p or got_r != want_r or not same:
+        F.add_fid(FID_RUP, CL_RUP,
+                  f'model with parameters {["UNUSED"] + pnames + ["OM_E", "OM_U"]} and random variables EU ~ N(0, OM_U), '
+                  f'E ~ N(0, OM_E): the result has parameters {got_p} and random variables {got_r}, expected '
+                  f'{want_p} and {want_r}' + ('' if same else '; the statements changed'))
 
 
 def _check_program(prog, level='full'):
@@ -779,6 +825,10 @@ def _check_program(prog, level='full'):
     if not piecewise:
         _check_rsd(prog, objs, st, reach, vals0, F)
 
+    # ---- remove_unused_parameters_and_rvs ------------------------------------------------------
+    if has_ode and not (inputs & set(assigned)):
+        _check_rup(prog, objs, st, inputs, F)
+
     # ---- frame: nothing above changed the original object ---------------------------------------
     try:
         if len(st) != n or any(st[i] is not objs[i] for i in range(n)) or \
@@ -928,11 +978,11 @@ def _families(tier):
     double = [('lag', 'bio'), ('dose', 'input'), ('rate', 'q'), ('bio', 'plag'), ('pdose', 'pbio'), ('lag', 'pinput'),
               ('q', 'pinput'), ('input', 'plag')]
     return quick[:2] + [
-        dict(g1, name='G1t', post_lhs=('B', 'Y'), post_syms=(ACENT, 'B', 'S', 'E'),
-             bound='as G1 with <=1 statement after the system with lhs {B,Y}, ' + sums + '{A_CENTRAL(t),B,S,E}'),
+        dict(g1, name='G1t', post_lhs=('B', 'Y'), post_syms=(ACENT, 'B', 'S'),
+             bound='as G1 with <=1 statement after the system with lhs {B,Y}, ' + sums + '{A_CENTRAL(t),B,S}'),
         dict(g1, name='G2t', variants=_ode_variants(double, ('S', 'T')), pre_lhs=('S', 'T', 'B'),
-             pre_syms=('X', 'S', 'T', 'B'), post_syms=(ACENT, 'B', 'T'),
-             bound='<=2 statements (lhs {S,T,B}, ' + sums + '{X,S,T,B}), an ODE system with TWO attributes set to S and T '
+             pre_syms=('X', 'S', 'T'), post_syms=(ACENT, 'B', 'T'),
+             bound='<=2 statements (lhs {S,T,B}, ' + sums + '{X,S,T}), an ODE system with TWO attributes set to S and T '
                    '(lag+bio, dose+input, rate+q, bio+plag, pdose+pbio, lag+pinput, q+pinput, input+plag), <=1 statement '
                    '(lhs Y, ' + sums + '{A_CENTRAL(t),B,T})'),
     ] + [
@@ -986,6 +1036,7 @@ def _run_pool(worker, tasks):
 
 def bounded_dataflow(tier):
     fams = _families(tier)
+    _pxm()
     tasks = []
     for fam in reversed([f for f in fams if not f.get('new')]):   # the largest tasks first (load balance only)
         tasks += _tasks(fam)
